@@ -249,7 +249,23 @@ func (g *gen) faultStmt() ([]zn.Stmt, zn.Stmt, string) {
 	div := func(den zn.Expr) zn.Expr {
 		return &zn.Bin{Op: ">", L: &zn.Bin{Op: "/", L: num(10), R: &zn.Grp{E: den}}, R: num(0)}
 	}
-	switch g.pick(22, "fault") {
+	switch g.pick(24, "fault") {
+	case 23, 22:
+		// an expression standing as a statement whose top-level operator stands on a later
+		// line than its first token (the left operand is bracketed and may be broken over
+		// lines): the statement is the line it BEGINS on
+		g.labels["fault-in-expression-statement-with-bracketed-left-operand"] = true
+		left := &zn.Grp{E: &zn.Bin{Op: "+", L: &zn.Index{Root: &zn.ListLit{Items: []zn.Expr{num(1), num(2), num(3)}}, Idx: num(2)}, R: &zn.Call{Name: "完成", Args: []zn.Expr{num(4)}}}}
+		switch g.pick(4, "xop") {
+		case 0:
+			return nil, &zn.ExprStmt{E: &zn.Bin{Op: "/", L: left, R: num(0)}}, "division by zero, the divisor after a bracketed left operand"
+		case 1:
+			return nil, &zn.ExprStmt{E: &zn.Bin{Op: "+", L: left, R: &zn.Str{V: "文"}}}, "number + text after a bracketed left operand"
+		case 2:
+			return nil, &zn.ExprStmt{E: &zn.Bin{Op: ">", L: left, R: &zn.Str{V: "文"}}}, "ordering of a number and a text after a bracketed left operand"
+		default:
+			return nil, &zn.ExprStmt{E: &zn.Bin{Op: "且", L: &zn.Grp{E: &zn.Bin{Op: "==", L: left, R: num(6)}}, R: num(1)}}, "且 with a number after a bracketed left operand"
+		}
 	case 21:
 		// an object creation standing as a statement of its own, a fault in one of its arguments
 		g.labels["fault-in-argument-of-object-creation-statement"] = true
